@@ -9,6 +9,7 @@ import (
 )
 
 type zzH struct {
+	cap     int
 	id      int
 	matched bool
 	keep    bool
@@ -18,10 +19,18 @@ type zzH struct {
 	expect  int // messages that must have been delivered
 }
 
+// zzFixedCap >= 0 fixes the queue capacity of the handlers registered by zzRegister.
+var zzFixedCap = -1
+
 func zzRegister(e EndPoint, h *zzH) {
 	h.matched = sym.Bool("matched")
 	h.keep = sym.Bool("keep")
-	h.queue = make(chan *Message, 8)
+	// queue capacity: plenty, a single slot, or an unbuffered queue nobody is reading
+	h.cap = zzFixedCap
+	if h.cap < 0 {
+		h.cap = []int{8, 1, 0}[sym.Choose("queue-cap", 3)]
+	}
+	h.queue = make(chan *Message, h.cap)
 	h.alive = true
 	h.id = e.MakeHandler(func(hdr *Header) (bool, bool) { return h.matched, h.keep }, h.queue,
 		func(err error) { atomic.AddInt32(&h.closed, 1) })
@@ -56,6 +65,7 @@ func zzDrain(hs []*zzH) {
 // c17Sequential: API-level operation sequences against a reference model of the handler table.
 func c17Sequential(steps int) {
 	s := newZZStream()
+	s.closeErr = sym.Bool("close-fails")
 	e := NewEndPoint(s)
 	var hs []*zzH
 	shutdown := false
@@ -95,8 +105,8 @@ func c17Sequential(steps int) {
 				if !h.alive {
 					continue
 				}
-				if h.matched {
-					h.expect++
+				if h.matched && h.expect < h.cap {
+					h.expect++ // delivered only while the queue has room; never blocks otherwise
 				}
 				if !h.keep {
 					h.alive = false
@@ -131,6 +141,7 @@ func C17SequentialDeep() { c17Sequential(4) }
 // C17Race: explicit removal, self-removal by a non-keep filter on incoming traffic and connection
 // shutdown race for the same handler; a second handler is an innocent bystander.
 func C17Race() {
+	zzFixedCap = 8
 	s := newZZStream()
 	e := NewEndPoint(s)
 	h0 := &zzH{}
